@@ -630,7 +630,9 @@ func (ex *Exec) assignTo(st *State, lhs ast.Expr, v Val, k func(*State)) {
 					}
 				}
 			}
+			ex.checkMapParamWrite(l.Pos(), l.X)
 			if link != nil {
+				ex.checkMapParamWrite(l.Pos(), link.base)
 				// x denotes the same map object as E[k]: update x and store it back into E[k]
 				ex.eval(st, l.X, func(st2 *State, m Val) {
 					ex.eval(st2, l.Index, func(st3 *State, key Val) {
@@ -675,6 +677,89 @@ func (ex *Exec) assignTo(st *State, lhs ast.Expr, v Val, k func(*State)) {
 	default:
 		ex.oof(lhs.Pos(), "assignment target %T", lhs)
 	}
+}
+
+// assignMapInPlace: the map object denoted by e changes in place (delete, clear): like an element write, a
+// linked inner-map variable keeps its link and the outer element changes with it.
+func (ex *Exec) assignMapInPlace(st *State, e ast.Expr, nv Val, k func(*State)) {
+	if id, ok := unparen(e).(*ast.Ident); ok {
+		if obj := ex.info.Uses[id]; obj != nil {
+			if lk := st.aliasLinks[obj]; lk != nil {
+				ex.checkMapParamWrite(e.Pos(), lk.base)
+				ex.writeVar(st, obj, nv)
+				ex.writeBackLink(st, obj, lk)
+				k(st)
+				return
+			}
+			if v, ok := obj.(*types.Var); ok && ex.aliasMapVars[v] {
+				ex.oof(e.Pos(), "in-place change of map variable %s that may alias another map (aliasing of maps is not modelled)", id.Name)
+			}
+		}
+	}
+	ex.assignTo(st, e, nv, k)
+}
+
+// checkMapParamWrite: a map is a reference: writing an element of a map that came in through a parameter
+// (directly, or inside a struct/array VALUE parameter; maps reached through pointers live in the heap and
+// are covered by the heap frame) changes the caller's map. The parameter must then be listed in `modifies`,
+// otherwise callers of this contract would keep their argument unchanged (found by a contract author: a
+// helper filled an index map without `modifies`, its callers saw the literal empty map).
+func (ex *Exec) checkMapParamWrite(pos token.Pos, e ast.Expr) {
+	if ex.fc == nil || ex.fn == nil {
+		return
+	}
+	root := unparen(e)
+	for {
+		switch x := root.(type) {
+		case *ast.SelectorExpr:
+			if sel := ex.info.Selections[x]; sel != nil && sel.Kind() == types.FieldVal {
+				if _, isPtr := under(ex.typeOf(x.X)).(*types.Pointer); isPtr {
+					return // heap
+				}
+				root = unparen(x.X)
+				continue
+			}
+			return
+		case *ast.IndexExpr:
+			root = unparen(x.X)
+			continue
+		case *ast.StarExpr:
+			return // heap
+		}
+		break
+	}
+	id, ok := root.(*ast.Ident)
+	if !ok {
+		return
+	}
+	obj, ok := ex.info.Uses[id].(*types.Var)
+	if !ok {
+		return
+	}
+	sig := ex.fn.Type().(*types.Signature)
+	isParam := sig.Recv() == obj
+	idx := -1
+	for i := 0; i < sig.Params().Len(); i++ {
+		if sig.Params().At(i) == obj {
+			isParam, idx = true, i
+		}
+	}
+	if !isParam {
+		return
+	}
+	names := []string{obj.Name()}
+	if idx >= 0 && idx < len(ex.fc.ParamNames) && ex.fc.ParamNames[idx] != "" {
+		names = append(names, ex.fc.ParamNames[idx])
+	}
+	for _, m := range ex.fc.Modifies {
+		m = strings.TrimPrefix(m, "param ")
+		for _, n := range names {
+			if m == n {
+				return
+			}
+		}
+	}
+	ex.fail(pos, "a map reached through parameter %s is written but %s is not listed in `modifies` (callers would keep their argument unchanged)", obj.Name(), obj.Name())
 }
 
 func mapStore(m Val, k, v string) Val {
